@@ -53,31 +53,34 @@ Print Assumptions C08_scatter_error_iff.
 Theorem C08_every_node_whole_payload :
   forall (A : Type) (payload : list A) inp order i v,
     wf_input inp -> length payload = N.to_nat (i_len inp) ->
-    nth_error (fst (run inp order)) i = Some v -> v_start v <> None ->
+    nth_error (fst (run inp order)) i = Some v -> v_at v <> None ->
     concat (map (nslice payload) (v_calls v)) = payload
     /\ (i_kind inp <> KAttestations -> v_calls v = [(0, i_len inp)])
     /\ (0 < i_len inp -> Forall (fun c => 0 < snd c) (v_calls v)).
 Proof. intros A payload inp order i v. exact (whole_payload_lemma inp order i v payload). Qed.
 Print Assumptions C08_every_node_whole_payload.
 
-(* If no node hangs, every node is contacted eventually, whatever the concurrency (>= 1) and the
-   schedule, and receives exactly the calls above. *)
+(* If no node hangs (neither at a call nor at a version request: its span is finite), every node is
+   contacted eventually, whatever the concurrency (>= 1) and the schedule, and receives exactly the
+   calls above. *)
 Theorem C08_delivery_eventually :
   forall inp order i v,
     guard_ok (i_kind inp) (i_len inp) = true -> wf_input inp ->
     valid_order (length (i_nodes inp)) order ->
     (forall nd, In nd (i_nodes inp) ->
-                node_dur (node_behs (i_kind inp) (i_len inp) (i_conc inp) nd) <> None) ->
+                node_span (i_kind inp) nd (node_behs (i_kind inp) (i_len inp) (i_conc inp) nd) <> None) ->
     nth_error (fst (run inp order)) i = Some v ->
-    v_start v <> None /\ v_calls v = calls_of (i_kind inp) (i_len inp) (i_conc inp).
+    v_at v <> None /\ v_calls v = calls_of (i_kind inp) (i_len inp) (i_conc inp).
 Proof. exact delivery_eventually. Qed.
 Print Assumptions C08_delivery_eventually.
 
 (* ------------------------------------------------------------------------------------------- *)
 (* Fault isolation.  With processConcurrency >= number of nodes, what node i sees and does is a
-   function of node i alone ([solo_view]: contacted at time 0 with the whole payload, finishing
-   when its own slowest call returns, with its own verdict) -- for every behaviour of the other
-   nodes (error, hang, slow) and every schedule. *)
+   function of node i alone ([solo_view]: asked for its version at time 0, handed the whole payload
+   as soon as it has answered that, finishing after its own span -- its version latency, its own
+   slowest call, for a classified rejection its version latency again -- with its own verdict) --
+   for every behaviour of the other nodes (error, hang, slow, at a call or at the version request)
+   and every schedule. *)
 Theorem C08_fault_isolation :
   forall inp order i v,
     guard_ok (i_kind inp) (i_len inp) = true ->
@@ -88,6 +91,27 @@ Theorem C08_fault_isolation :
                /\ v = solo_view (i_kind inp) (i_len inp) (i_conc inp) nd.
 Proof. exact contacted_at_once. Qed.
 Print Assumptions C08_fault_isolation.
+
+(* In particular the version request (helpers.go serviceInfo -> NodeVersion) that precedes every
+   submission to a node is that node's own affair: node i is handed the payload exactly when its own
+   version endpoint has answered (never, if it never does), in full, whatever the version endpoints
+   and the replies of the other nodes do. *)
+Theorem C08_handed_over_after_own_version_request :
+  forall inp order i v,
+    guard_ok (i_kind inp) (i_len inp) = true ->
+    valid_order (length (i_nodes inp)) order ->
+    (Z.of_nat (length (i_nodes inp)) <= i_conc inp)%Z ->
+    nth_error (fst (run inp order)) i = Some v ->
+    exists nd, nth_error (i_nodes inp) i = Some nd
+               /\ v_at v = n_ver1 nd
+               /\ (n_ver1 nd <> None -> v_calls v = calls_of (i_kind inp) (i_len inp) (i_conc inp)).
+Proof.
+  intros inp order i v Hg Ho Hc Hv.
+  destruct (contacted_at_once inp order i v Hg Ho Hc Hv) as [nd [En ->]].
+  exists nd. split; [exact En|]. split; [reflexivity|].
+  cbn [solo_view v_calls]. destruct (n_ver1 nd); [reflexivity | congruence].
+Qed.
+Print Assumptions C08_handed_over_after_own_version_request.
 
 (* ... and success via it: if node i, taken alone, ends with an accepted result at d < timeout,
    every possible outcome is a success, returned no later than d (d > 0; an answer at the very
@@ -100,7 +124,7 @@ Theorem C08_success_via_any_node :
     (Z.of_nat (length (i_nodes inp)) <= i_conc inp)%Z ->
     nth_error (i_nodes inp) i = Some nd ->
     node_verdict (i_kind inp) (n_client nd) (node_behs (i_kind inp) (i_len inp) (i_conc inp) nd) = VOk ->
-    node_dur (node_behs (i_kind inp) (i_len inp) (i_conc inp) nd) = Some d ->
+    node_span (i_kind inp) nd (node_behs (i_kind inp) (i_len inp) (i_conc inp) nd) = Some d ->
     d < i_timeout inp ->
     In o (snd (run inp order)) ->
     fst o = true /\ (0 < d -> snd o <= d).
@@ -130,8 +154,9 @@ Print Assumptions C08_always_returns.
       fst o = true  ->  some node accepted within the timeout   (d <= T)
       some node accepted before the timeout (d < T)  ->  fst o = true
    where "node nd accepted" = every call that carried a part of the payload to nd was accepted or
-   rejected only for reasons of the documented table ([spec_node_ok]) and nd's slowest call
-   returned at d.  (At d = T exactly, the store and the timeout race: both results are possible.)
+   rejected only for reasons of the documented table ([spec_node_ok]) and vouch had nd's answer
+   at d ([node_span]: nd's version latency, its slowest call, and for a rejection the version
+   latency of the classifier's request).  (At d = T exactly, the store and the timeout race: both results are possible.)
 
    The faithful model REFUTES the full statement for attestations (two input classes, theorems
    C08_success_iff_refuted_* below), so what is proved is the statement for [clean_input]:
@@ -149,7 +174,7 @@ Theorem C08_success_iff_partial :
     let accepted_by (bound : N -> Prop) :=
       exists nd d, In nd (i_nodes inp)
         /\ spec_node_ok (i_kind inp) (n_client nd) (node_behs (i_kind inp) (i_len inp) (i_conc inp) nd) = true
-        /\ node_dur (node_behs (i_kind inp) (i_len inp) (i_conc inp) nd) = Some d /\ bound d in
+        /\ node_span (i_kind inp) nd (node_behs (i_kind inp) (i_len inp) (i_conc inp) nd) = Some d /\ bound d in
     (fst o = true -> accepted_by (fun d => d <= i_timeout inp))
     /\ (accepted_by (fun d => d < i_timeout inp) -> fst o = true).
 Proof. exact success_iff_clean. Qed.
@@ -168,7 +193,7 @@ Definition refute_mixed_body : input :=
   {| i_kind := KAttestations; i_len := 2; i_conc := 1; i_timeout := 1000;
      i_nodes := [ {| n_client := Lighthouse;
                      n_default := BReply 5 (RError {| e_shape := ShFailures; e_entries := [Some PhPriorAtt; Some PhReal] |});
-                     n_over := [] |} ] |}.
+                     n_over := []; n_ver1 := Some 0; n_ver2 := Some 0 |} ] |}.
 
 (* Witness 2 (corpus/C08/att-lighthouse-chunk-real-error-then-duplicate.json): four attestations,
    concurrency 2: Scatter makes two calls; the node rejects the first chunk for a real reason at
@@ -178,7 +203,8 @@ Definition refute_chunk_error : input :=
      i_nodes := [ {| n_client := Lighthouse;
                      n_default := BReply 10 RAccept;
                      n_over := [ (0, BReply 20 (RError {| e_shape := ShFailures; e_entries := [Some PhReal] |}));
-                                 (2, BReply 30 (RError {| e_shape := ShFailures; e_entries := [Some PhPriorAtt] |})) ] |} ] |}.
+                                 (2, BReply 30 (RError {| e_shape := ShFailures; e_entries := [Some PhPriorAtt] |})) ];
+                     n_ver1 := Some 0; n_ver2 := Some 0 |} ] |}.
 
 Definition refutes (inp : input) (order : list nat) : Prop :=
   guard_ok (i_kind inp) (i_len inp) = true /\ 0 < i_timeout inp
@@ -285,11 +311,11 @@ Proof. repeat split. Qed.
    time 0; the input is clean and meets every hypothesis of the theorems above. *)
 Definition example_input : input :=
   {| i_kind := KSyncMessages; i_len := 3; i_conc := 3; i_timeout := 2000;
-     i_nodes := [ {| n_client := Lighthouse; n_default := BHang; n_over := [] |};
-                  {| n_client := Prysm; n_default := BReply 7 (RError {| e_shape := ShPlain; e_entries := [] |}); n_over := [] |};
+     i_nodes := [ {| n_client := Lighthouse; n_default := BHang; n_over := []; n_ver1 := Some 0; n_ver2 := Some 0 |};
+                  {| n_client := Prysm; n_default := BReply 7 (RError {| e_shape := ShPlain; e_entries := [] |}); n_over := []; n_ver1 := Some 0; n_ver2 := Some 0 |};
                   {| n_client := Teku;
                      n_default := BReply 40 (RError {| e_shape := ShFailures; e_entries := [Some PhTekuDupSync; Some PhTekuDupSync] |});
-                     n_over := [] |} ] |}.
+                     n_over := []; n_ver1 := Some 0; n_ver2 := Some 0 |} ] |}.
 
 Example C08_example_run :
   snd (run example_input [2; 0; 1]%nat) = [(true, 40)]
@@ -312,8 +338,9 @@ Proof. vm_compute. repeat split. Qed.
 Example C08_example_chunks :
   let inp := {| i_kind := KAttestations; i_len := 7; i_conc := 3; i_timeout := 500;
                 i_nodes := [ {| n_client := Lighthouse; n_default := BReply 10 RAccept;
-                                n_over := [ (4, BReply 20 (RError {| e_shape := ShFailures; e_entries := [Some PhPriorAtt] |})) ] |} ] |} in
-  run inp [0%nat] = ([ {| v_start := Some 0; v_calls := [(0, 3); (3, 3); (6, 1)]; v_done := Some 20; v_verdict := VOk |} ], [(true, 20)])
+                                n_over := [ (4, BReply 20 (RError {| e_shape := ShFailures; e_entries := [Some PhPriorAtt] |})) ];
+                                n_ver1 := Some 0; n_ver2 := Some 0 |} ] |} in
+  run inp [0%nat] = ([ {| v_start := Some 0; v_at := Some 0; v_calls := [(0, 3); (3, 3); (6, 1)]; v_done := Some 20; v_verdict := VOk |} ], [(true, 20)])
   /\ clean_input inp = true.
 Proof. vm_compute. repeat split. Qed.
 
@@ -325,14 +352,57 @@ Proof. vm_compute. repeat split. Qed.
 Example C08_example_tolerated_chunk_then_accept :
   let inp := {| i_kind := KAttestations; i_len := 4; i_conc := 2; i_timeout := 200;
                 i_nodes := [ {| n_client := Lighthouse; n_default := BReply 30 RAccept;
-                                n_over := [ (0, BReply 10 (RError {| e_shape := ShFailures; e_entries := [Some PhPriorAtt] |})) ] |} ] |} in
+                                n_over := [ (0, BReply 10 (RError {| e_shape := ShFailures; e_entries := [Some PhPriorAtt] |})) ];
+                                n_ver1 := Some 0; n_ver2 := Some 0 |} ] |} in
   let calls := [[(0, [0; 1]); (0, [2; 3])]] in
   let seen ok ret cut := {| c_id := 0; c_body := CSubmit inp [0%nat]
         {| o_panic := false; o_success := ok; o_ret := ret; o_nodes := calls; o_cut := [cut] |} |} in
-  run inp [0%nat] = ([ {| v_start := Some 0; v_calls := [(0, 2); (2, 2)]; v_done := Some 30; v_verdict := VOk |} ], [(true, 30)])
+  run inp [0%nat] = ([ {| v_start := Some 0; v_at := Some 0; v_calls := [(0, 2); (2, 2)]; v_done := Some 30; v_verdict := VOk |} ], [(true, 30)])
   /\ clean_input inp = true
   /\ agree (seen true 30 []) = true /\ P_b (seen true 30 []) = true
   /\ P_b (seen false 200 [(10, false)]) = false
   /\ P_b (seen true 30 [(10, false)]) = false /\ agree (seen true 30 [(10, false)]) = false
   /\ P_b (seen true 30 [(10, true)]) = true /\ P_b (seen true 30 [(200, false)]) = true.
+Proof. vm_compute. repeat split. Qed.
+
+(* Faults at the version endpoint.  Sync committee contributions to three nodes, concurrency 3,
+   timeout 500 ms: node 0 never answers the version request, node 1 answers it after 300 ms and then
+   accepts within 10 ms, node 2 answers it at once and accepts after 40 ms.  The model: node 0 is
+   never handed the payload, node 1 at 300 ms, node 2 at once; success at 40 ms.  The check's
+   predicate accepts that observation and condemns what a submitter does that asks the nodes for
+   their versions one after the other before dispatching (seeded change C08-8): the call that has not
+   returned when nothing more can happen, node 2 contacted only once node 1 has answered, and a
+   failure reported later than the timeout. *)
+Example C08_example_version_faults :
+  let nd v d := {| n_client := Lighthouse; n_default := BReply d RAccept; n_over := []; n_ver1 := v; n_ver2 := Some 0 |} in
+  let inp := {| i_kind := KSyncContributions; i_len := 2; i_conc := 3; i_timeout := 500;
+                i_nodes := [ nd None 10; nd (Some 300) 10; nd (Some 0) 40 ] |} in
+  let seen ok ret nodes := {| c_id := 0; c_body := CSubmit inp [0; 1; 2]%nat
+        {| o_panic := false; o_success := ok; o_ret := ret; o_nodes := nodes; o_cut := [[]; []; []] |} |} in
+  snd (run inp [0; 1; 2]%nat) = [(true, 40)]
+  /\ map v_at (fst (run inp [0; 1; 2]%nat)) = [None; Some 300; Some 0]
+  /\ map v_done (fst (run inp [0; 1; 2]%nat)) = [None; Some 310; Some 40]
+  /\ agree (seen true 40 [[]; [(300, [0; 1])]; [(0, [0; 1])]]) = true
+  /\ P_b (seen true 40 [[]; [(300, [0; 1])]; [(0, [0; 1])]]) = true
+  /\ P_b (seen false 2350 [[]; []; []]) = false
+  /\ P_b (seen true 340 [[]; [(300, [0; 1])]; [(300, [0; 1])]]) = false
+  /\ P_b (seen false 800 [[]; [(300, [0; 1])]; []]) = false.
+Proof. vm_compute. repeat split. Qed.
+
+(* The classifier's own version request counts against the node it is made to, and only against it:
+   a Teku node rejects sync committee messages as duplicates at 40 ms, having answered the first
+   version request after 20 ms, and answers the classifier's version request after another 100 ms:
+   vouch has its (tolerated) answer at 160 ms; the other node never answers anything. *)
+Example C08_example_version_again :
+  let dup := RError {| e_shape := ShFailures; e_entries := [Some PhTekuDupSync] |} in
+  let inp := {| i_kind := KSyncMessages; i_len := 2; i_conc := 2; i_timeout := 500;
+                i_nodes := [ {| n_client := Teku; n_default := BReply 40 dup; n_over := []; n_ver1 := Some 20; n_ver2 := Some 100 |};
+                             {| n_client := Prysm; n_default := BHang; n_over := []; n_ver1 := Some 0; n_ver2 := None |} ] |} in
+  let seen ok ret := {| c_id := 0; c_body := CSubmit inp [0; 1]%nat
+        {| o_panic := false; o_success := ok; o_ret := ret; o_nodes := [[(20, [0; 1])]; [(0, [0; 1])]]; o_cut := [[]; []] |} |} in
+  run inp [0; 1]%nat
+  = ([ {| v_start := Some 0; v_at := Some 20; v_calls := [(0, 2)]; v_done := Some 160; v_verdict := VOk |};
+       {| v_start := Some 0; v_at := Some 0; v_calls := [(0, 2)]; v_done := None; v_verdict := VOk |} ], [(true, 160)])
+  /\ agree (seen true 160) = true /\ P_b (seen true 160) = true
+  /\ P_b (seen false 500) = false /\ P_b (seen true 60) = false.
 Proof. vm_compute. repeat split. Qed.
